@@ -41,8 +41,11 @@ def _params(fn) -> Set[str]:
 
 
 def _text(e: ast.AST, sub: Dict[str, str]) -> str:
-    """alpha-normal text of e with locals renamed by `sub`"""
+    """alpha-normal text of e with locals renamed by `sub` (a nested function: its parameter count and statement skeleton)"""
     from . import astx
+    if isinstance(e, FuncDef):
+        from .skeleton import digest
+        return f"{len(e.args.args)} params, skeleton {digest(e)}"
     e = copy.deepcopy(e)
     for n in ast.walk(e):
         if isinstance(n, ast.Name) and n.id in sub:
@@ -84,6 +87,8 @@ def bindings(fn) -> Dict[str, List[Tuple[str, ast.AST]]]:
             for it in n.items:
                 if isinstance(it.optional_vars, ast.Name):
                     add(it.optional_vars.id, "with", it.context_expr)
+        elif isinstance(n, FuncDef):
+            add(n.name, "def", n)     # a nested helper is a local name too
     return out
 
 
@@ -103,13 +108,13 @@ def load_recorded() -> Optional[Dict[str, Dict[str, Dict[str, List[str]]]]]:
 def rename_back(fn, recorded: Dict[str, List[str]]) -> Dict[str, str]:
     """Rename locals of `fn` back to their recorded names where the match is unambiguous.  Returns {current: recorded}."""
     cur = bindings(fn)
-    have = set(cur) | _params(fn) | {n.id for n in _own(fn) if isinstance(n, ast.Name)}
+    have = set(cur) | _params(fn) | {n.id for n in _own(fn) if isinstance(n, ast.Name)} | {n.name for n in _own(fn) if isinstance(n, FuncDef)}
     missing = {r for r in recorded if r not in have}
     extra = {c for c in cur if c not in recorded}
     mapping: Dict[str, str] = {}
     if not missing or not extra:
         return mapping
-    for _ in range(12):
+    for _ in range(80):
         progress = False
         sig = signature(fn, mapping)
         for r in sorted(missing):
@@ -129,7 +134,31 @@ def rename_back(fn, recorded: Dict[str, List[str]]) -> Dict[str, str]:
         for n in _own(fn):
             if isinstance(n, ast.Name) and n.id in mapping:
                 n.id = mapping[n.id]
+            elif isinstance(n, FuncDef) and n.name in mapping:
+                # a renamed nested helper: its definition, and the reads of its name inside nested scopes
+                n.name = mapping[n.name]
+        defs = {v for v in mapping.values()} & {n.name for n in _own(fn) if isinstance(n, FuncDef)}
+        if defs:
+            back = {k: v for k, v in mapping.items() if v in defs}
+            for n in ast.walk(fn):
+                if isinstance(n, ast.Name) and n.id in back:
+                    n.id = back[n.id]
     return mapping
+
+
+def snapshot(trees) -> Dict[str, Dict[str, Dict[str, List[str]]]]:
+    """The binding signatures of every function, taken at the stage of loading where `apply` runs (known_locals.json is
+    this snapshot of the pinned tree: both sides of the comparison see the trees in the same state)."""
+    from .inline import qualnames
+    out = {}
+    for mname, (rel, tree) in trees.items():
+        rec = {}
+        for q, (fn, _cls) in sorted(qualnames(tree).items()):
+            rec[q] = signature(fn)
+            for sub in [x for x in ast.walk(fn) if isinstance(x, FuncDef) and x is not fn]:
+                rec[f"{q}.<locals>.{sub.name}"] = signature(sub)
+        out[rel] = rec
+    return out
 
 
 def apply(trees, recorded) -> List[str]:
